@@ -60,6 +60,20 @@ def run(ctx):
     ]
 
 
+def selftest(ctx):
+    build_harness()
+    tr = ctx.work / "st-trace.ndjson"
+    vh(["c01-trace", "seed=11", "n=30", "len=30", "nogdef=1", f"out={tr}"])
+    def flip(e):
+        if e.get("ev") != "assign" or "obs" not in e: return None
+        e["obs"][e["key"] - 1] = (e["obs"][e["key"] - 1] + 1) % 3
+        return e
+    selftest_traces(ctx, "read-corrupted", "Trace_TexGroups", "Trace_TexGroups.cfg", tr, flip)
+    for bug in ["StickyNotReset", "StickyIgnoresGlobaldefs", "PurgeOnlyOuter", "SaveAlways"]:
+        tlc_expect_refuted("MC_TexGroups", f"NEG_TexGroups_{bug}.cfg", bug, workers=3)
+    ctx.cov["rule"] = "selftest: corrupted recordings must be rejected, originals accepted, spec mutants refuted"
+
+
 def replay(path):
     r = json.load(open(path))
     build_harness()
